@@ -107,17 +107,56 @@ static std::string synth_punct_schema(const std::string& id, const std::string& 
          "    \"<\": [\"\xe3\x80\x8a\", \"\xe3\x80\x88\"]\n";
 }
 
+// synth_kb_express / synth_kb_fluid: synth_punct_* with key_binder first and the bindings of coq/Eng/Oracle.v: synth_bindings
+// (generated from the same table; keep in sync).
+static std::string synth_kb_schema(const std::string& id, const std::string& editor, bool fluid) {
+  std::string y = synth_punct_schema(id, editor, fluid);
+  replace_all(y, "  processors:\n    - speller\n", "  processors:\n    - key_binder\n    - speller\n");
+  return y + "key_binder:\n  bindings:\n"
+         "    - {when: composing, accept: \"Control+p\", send: \"Up\"}\n"
+         "    - {when: composing, accept: \"Control+n\", send: \"Down\"}\n"
+         "    - {when: composing, accept: \"Control+b\", send: \"Left\"}\n"
+         "    - {when: composing, accept: \"Control+f\", send: \"Right\"}\n"
+         "    - {when: composing, accept: \"Control+h\", send: \"BackSpace\"}\n"
+         "    - {when: composing, accept: \"Control+g\", send: \"Escape\"}\n"
+         "    - {when: composing, accept: \"Shift+Tab\", send: \"Shift+Left\"}\n"
+         "    - {when: composing, accept: \"Tab\", send: \"Shift+Right\"}\n"
+         "    - {when: paging, accept: \"minus\", send: \"Page_Up\"}\n"
+         "    - {when: has_menu, accept: \"equal\", send: \"Page_Down\"}\n"
+         "    - {when: paging, accept: \"comma\", send: \"Page_Up\"}\n"
+         "    - {when: has_menu, accept: \"period\", send: \"Page_Down\"}\n"
+         "    - {when: always, accept: \"Control+Shift+4\", toggle: \"full_shape\"}\n"
+         "    - {when: always, accept: \"Control+period\", toggle: \"ascii_punct\"}\n"
+         "    - {when: always, accept: \"Control+Shift+2\", set_option: \"ascii_punct\"}\n"
+         "    - {when: always, accept: \"Control+Shift+3\", unset_option: \"ascii_punct\"}\n"
+         "    - {when: always, accept: \"Control+s\", send: \"Control+s\"}\n"
+         "    - {when: always, accept: \"Control+a\", send: \"Control+e\"}\n"
+         "    - {when: always, accept: \"Control+e\", send: \"Control+a\"}\n"
+         "    - {when: always, accept: \"Control+c\", send_sequence: \"ab{Control+d}c\"}\n"
+         "    - {when: composing, accept: \"Control+d\", send: \"x\"}\n"
+         "    - {when: always, accept: \"Control+k\", send: \"y\"}\n"
+         "    - {when: composing, accept: \"Control+k\", send_sequence: \"{End}{BackSpace}\"}\n"
+         "    - {when: composing, accept: \"Control+k\", send: \"z\"}\n"
+         "    - {when: has_menu, accept: \"bracketleft\", send_sequence: \"{Page_Down}{Down}\"}\n"
+         "    - {when: composing, accept: \"Control+w\", toggle: \"verif_short\"}\n"
+         "    - {when: always, accept: \"Control+q\", send: \"comma\"}\n"
+         "    - {when: composing, accept: \"Control+j\", send_sequence: \"{Control+s}.{Control+k}\"}\n";
+}
+
 static void prepare(const std::string& shared, const std::string& kind) {
   vh::mkdirs(shared);
   if (kind == "synth") {
     vh::write_file(shared + "/default.yaml",
                    "config_version: \"verif\"\nschema_list:\n  - schema: synth_express\n  - schema: synth_fluid\n"
                    "  - schema: synth_punct_express\n  - schema: synth_punct_fluid\n"
+                   "  - schema: synth_kb_express\n  - schema: synth_kb_fluid\n"
                    "switcher:\n  caption: \"[verif]\"\n  hotkeys: []\nmenu:\n  page_size: 5\n");
     vh::write_file(shared + "/synth_express.schema.yaml", synth_schema("synth_express", "express_editor"));
     vh::write_file(shared + "/synth_fluid.schema.yaml", synth_schema("synth_fluid", "fluid_editor"));
     vh::write_file(shared + "/synth_punct_express.schema.yaml", synth_punct_schema("synth_punct_express", "express_editor", false));
     vh::write_file(shared + "/synth_punct_fluid.schema.yaml", synth_punct_schema("synth_punct_fluid", "fluid_editor", true));
+    vh::write_file(shared + "/synth_kb_express.schema.yaml", synth_kb_schema("synth_kb_express", "express_editor", false));
+    vh::write_file(shared + "/synth_kb_fluid.schema.yaml", synth_kb_schema("synth_kb_fluid", "fluid_editor", true));
   } else {
     const char* files[] = {"cangjie5.dict.yaml", "cangjie5.schema.yaml", "default.yaml", "essay.txt",
                            "luna_pinyin.dict.yaml", "luna_pinyin.schema.yaml", "symbols.yaml"};
